@@ -121,7 +121,7 @@ def gen_case(rng, tag):
 
 def cases(ctx):
     rng = ctx.rng('c17')
-    for i in range(ctx.budget(1500, 100000)):
+    for i in range(ctx.budget(4000, 150000)):
         yield gen_case(rng, f'S{ctx.shard}.{i}')
 
 
